@@ -175,8 +175,9 @@ def _mutate(data, rnd, kind):
     elif kind == "truncate" and n:
         del b[rnd.randrange(n) :]
     elif kind == "parse_code" and offs:
-        o = rnd.choice(offs)
-        b[o + 4] = rnd.choice([0x00, 0x10, 0x20, 0x30, 0xC8, 0xE8, 0xCC, 0xEC, 0x08, 0x11, 0xC0, 0xFF, rnd.randrange(256)])
+        o = rnd.choice([x for x in offs if x + 4 < n] or [0])
+        if n > 4:
+            b[o + 4] = rnd.choice([0x00, 0x10, 0x20, 0x30, 0xC8, 0xE8, 0xCC, 0xEC, 0x08, 0x11, 0xC0, 0xFF, rnd.randrange(256)])
     elif kind in ("next_offset", "prev_offset") and offs:
         o = rnd.choice(offs) + (5 if kind == "next_offset" else 9)
         v = rnd.choice([0, 1, 12, 13, 14, n, 0xFFFFFFFF, rnd.randrange(0, 64), rnd.randrange(0, max(1, n))])
